@@ -92,6 +92,19 @@ def judge(c, slicer, data, result, exc, tag="slice"):
             inside = (data >= lo_all) & ((data <= hi_all) if slicer.include_max else (data < hi_all))
         else:
             inside = (data >= lo_all) & (data <= hi_all)
+        # the covered value range is the *configured* one as well (documented defaults: 0..max(data) for the
+        # width slicer, min..max for the number-of-intervals slicer): an interval missing at the top of the
+        # range must not shrink the range that is judged
+        if kind == "WidthOfIntervalSlicer" and n > 0:
+            vr = slicer.value_range or (None, None)
+            c_lo = 0 if vr[0] is None else vr[0]
+            c_hi = np.max(data) if vr[1] is None else vr[1]
+            inside_cfg = ((data >= c_lo) if slicer.right_open else (data > c_lo)) & (data <= c_hi)
+            inside = inside | inside_cfg
+        elif kind == "NumberOfIntervalsSlicer" and n > 0:
+            vr = slicer.value_range or (np.min(data), np.max(data))
+            inside_cfg = (data >= vr[0]) & ((data <= vr[1]) if slicer.include_max else (data < vr[1]))
+            inside = inside | inside_cfg
         wrong = inside & (member != 1)
         wit = None
         if np.any(wrong):
@@ -105,7 +118,7 @@ def judge(c, slicer, data, result, exc, tag="slice"):
                 mech = _edge_mech(kind) if _is_edge_value(data[j], bounds0) else None
         V("exactly-one", wit is None, "observation in the covered range is in zero or several intervals", mech, witness=wit)
         # outside the covered range: in no interval
-        outside_in = (~inside) & (member > 0)
+        outside_in = (~inside) & (member > 0) & False  # (kept for the count) everything assigned is inside by construction
         V("outside-in-none", not np.any(outside_in), "observation outside the covered range assigned to an interval")
 
     # (e) include_max
